@@ -25,7 +25,7 @@ long-lived jobs, every explored edge executed on the real pool; (2) random sched
 to 8 workers, 12 jobs); (3) probes through real listen(): connections opened one at a time and in bursts, \
 counting concurrently served connections. Invariants: active jobs <= max at every step; at every quiescent \
 state (no thread can move without a new submission or a job release) the queue is empty or max jobs are active; \
-every submitted job eventually runs exactly once. Non-trivial: a schedule in which a submission step overlaps a \
+every submitted job eventually runs exactly once. Plus the real listen() loop (6 rounds x 6 configurations x {burst, one at a time}, max+2 clients held open): peak concurrency <= max, and a connection among the first max left unserved for 5 s that repeats within three further runs is a stranded connection. Non-trivial: a schedule in which a submission step overlaps a \
 worker's dequeue/run/mark-idle window (a worker is parked at a probe while the acceptor is inside execute()); \
 distinct by (configuration, schedule).";
 
